@@ -16,7 +16,7 @@ func c18Cfg(opts flags.Options) *DeclCfg {
 	return &DeclCfg{
 		MaxDepth: 3, MaxFan: 4, PCmds: 70, Types: types, OptsMin: 1, OptsMax: 4, SubGroupsMax: 1, PInline: 20, NestMax: 1,
 		PNamespace: 30, PShortOnly: 15, PLongOnly: 25, PHidden: 20, PHiddenCmd: 20, PProgAttr: 30, POptional: 15, PDesc: 40,
-		PPos: 30, PosMax: 2, PRest: 30, PExec: 30, PByTag: 50, PSubOptional: 40, PAliases: 30, NonASCII: true,
+		PPos: 30, PosMax: 2, PRest: 30, PExec: 30, PByTag: 50, PSubOptional: 40, PAliases: 30, NonASCII: true, PClash: 25,
 		ParserOpts: []flags.Options{opts}, PosTypes: []TypeSpec{{K: KString}, {K: KVocab}, {K: KVocab}},
 	}
 }
